@@ -40,6 +40,11 @@ pub assume_specification<P: Pattern>[ str::ends_with::<P> ](s: &str, pat: P) -> 
 pub assume_specification<P: Pattern>[ str::strip_prefix::<P> ](s: &str, pat: P) -> (r: Option<&str>)
     ensures is_prefix(pat_view(pat), s@) ==> r.is_some() && r.unwrap()@ == s@.subrange(pat_view(pat).len() as int, s@.len() as int),
             !is_prefix(pat_view(pat), s@) ==> r.is_none();
+// str::contains: "Returns true if the given pattern matches a sub-slice of this string slice."; uninterpreted
+pub uninterp spec fn contains_spec(s: Seq<char>, pat: Seq<char>) -> bool;
+#[verifier::allow(undeclared_external_trait)]
+pub assume_specification<P: Pattern>[ str::contains::<P> ](s: &str, pat: P) -> (r: bool)
+    ensures r == contains_spec(s@, pat_view(pat));
 // str::trim_start / trim_end: "Returns a string slice with leading / trailing whitespace removed."; uninterpreted
 pub uninterp spec fn trim_start_spec(s: Seq<char>) -> Seq<char>;
 pub uninterp spec fn trim_end_spec(s: Seq<char>) -> Seq<char>;
